@@ -75,7 +75,7 @@ impl Monitor for C05 {
             Tier::Thorough => 1 + 6 * (2 * SPAN as u64 + 1),
             Tier::Sanitizer => 2,
         };
-        vec![gen("arith", arith), gen("sessions", tier.pick(20_000, 2_000_000, 6))]
+        vec![gen("arith", arith), gen("sessions", tier.pick(20_000, 2_000_000, 6)), gen("rx2-override", tier.pick(540, 20_000, 2)), gen("up-counter-exhausted", tier.pick(540, 20_000, 2))]
     }
     fn rule(&self) -> String {
         "arith: verif_next_fcnt_down(last, wire) for all 2^16 wire values per `last` (quick: stride 97 within +-70000 of each of 6 boundaries plus the 129 values around each and None; thorough: every value within +-70000), compared with the statement's rule in 64-bit arithmetic. sessions: devices (nb/async/async+ClassC, 9 regions) with sessions created at chosen counters receive 40-120 frames (fresh gaps 1/2/16383/16384, 16385+, replay, stale, other-epoch, bit-flip, foreign key, oversized, MAC in FOpts/port 0, confirmed) in RX1/RX2/Class C; after every transaction the accepted counter, response, delivered payloads and MAC answers are compared with a reference acceptance model. Class = (start class, frame class, verdict, window kind, front-end).".into()
@@ -110,6 +110,8 @@ impl Monitor for C05 {
                 arith(last, col);
             }
             "sessions" => session_case(idx, rng, col),
+            "rx2-override" => rx2_override_case(idx, rng, col),
+            "up-counter-exhausted" => exhausted_case(idx, rng, col),
             _ => unreachable!(),
         }
     }
@@ -508,5 +510,144 @@ fn session_case(idx: u64, rng: &mut Prng, col: &mut Collector) {
         if matches!(resp, Resp::SessionExpired) {
             break;
         }
+    }
+}
+
+
+/// "fits the maximum size of the data rate it was received at": the network moves RX2 to a faster
+/// rate (RXParamSetupReq), then sends in RX2 a frame that fits that rate but not the plan's
+/// default RX2 rate. It is authentic and fresh, so it must be accepted; the twin frame on a device
+/// whose RX2 was not moved is clearly oversized and must not be.
+fn rx2_override_case(idx: u64, rng: &mut Prng, col: &mut Collector) {
+    let front = FRONTS[(idx % 3) as usize];
+    let reg = regions::ALL[((idx / 3) % 9) as usize];
+    let moved = (idx / 27) % 2 == 0;
+    let opts = DevOpts { rng_seed: Some(rng.next_u64()), ..Default::default() };
+    let Some(mut link): Option<Link> = Link::abp(front, reg, rng, &opts) else {
+        col.event("harness_session_json_rejected");
+        return;
+    };
+    // default RX2 rates and their MACPayload limits: EU868/EU433 DR0 and IN865 DR2 59, US915/AU915
+    // DR8 53..61, AS923 DR2 123 (its table differs). The frame below has 110 octets of MACPayload
+    // (AS923: 200) and RX2 is moved to a rate whose limit is 123 or more (AS923: 250)
+    let (f2, _) = reg.rx2_default();
+    let fast: u8 = if reg.fixed() { *rng.pick(&[10u8, 11, 12, 13]) } else if reg.is_as923() { *rng.pick(&[4u8, 5]) } else { *rng.pick(&[3u8, 4, 5]) };
+    let frm_len = if reg.is_as923() { 192 } else { 102 };
+    if moved {
+        let t = link.deliver_mac(&rx_param_setup_req(fast, f2 / 100), rng.bool(), rng.bool());
+        if let Resp::Panic(m, l) = &t.resp {
+            col.violation(&format!("C05|panic|rx2-override|{}", short_loc(l)), "device panicked", json!({"msg": m, "loc": l}));
+            return;
+        }
+        // the answer goes out with the next uplink; the parameters are in force at once
+        if link.dev.snapshot().rx2_data_rate != Some(fast) {
+            col.event("rx2_override_not_taken");
+            return;
+        }
+        col.event("rx2_override_in_force");
+    }
+    // MACPayload: FHDR 7 + FPort 1 + FRMPayload
+    let payload = rng.bytes(frm_len);
+    let fcnt = link.fdown + 1 + rng.below(3) as u32;
+    let frame = link.net.downlink(&Down { fcnt, port: Some(rng.range(1, 200) as u8), payload: &payload, confirmed: rng.chance(1, 4), ..Default::default() });
+    let before = link.dev.fcnt_down();
+    let t = link.txn(&[1, 2], 7, false, &Script::rx2(frame.clone()));
+    if let Resp::Panic(m, l) = &t.resp {
+        col.violation(&format!("C05|panic|rx2-override|{}", short_loc(l)), "device panicked", json!({"msg": m, "loc": l}));
+        return;
+    }
+    let after = link.dev.fcnt_down();
+    let delivered = link.dev.take_downlinks();
+    let accepted = matches!(t.resp, Resp::DownlinkReceived(_));
+    col.eval(&format!("rx2-override|{}|{}|moved={}|dr{}|{}", reg.name(), front.name(), moved, fast, t.resp.kind()));
+    let ctx = json!({"region": reg.name(), "front": front.name(), "rx2_moved_to_dr": if moved { Some(fast) } else { None }, "frame_len": frame.len(), "response": format!("{:?}", t.resp), "fcnt_down_before": before, "fcnt_down_after": after});
+    if moved {
+        if !accepted || after != Some(Some(fcnt)) || delivered.len() != 1 || delivered[0].1 != payload {
+            col.violation(&format!("C05|rx2-override|fitting-frame-not-accepted|{}|{}", if reg.fixed() { "fixed" } else { "dynamic" }, front.name()), "an authentic fresh frame that fits the data rate RX2 was moved to (but not the plan's default RX2 rate) was not accepted in RX2", ctx);
+        } else {
+            col.event("rx2_override_big_frame_accepted");
+        }
+    } else if accepted || after != before || !delivered.is_empty() {
+        col.violation(&format!("C05|rx2-override|oversized-accepted|{}|{}", if reg.fixed() { "fixed" } else { "dynamic" }, front.name()), "a frame far beyond the size limit of the plan's default RX2 rate was accepted in an RX2 window at that rate", ctx);
+    } else {
+        col.event("rx2_default_big_frame_dropped");
+    }
+}
+
+
+/// The uplink counter of the session is at its last value (2^32-1). A downlink that is authentic
+/// and fresh is still acted on - whatever the call then reports - so the device must remember its
+/// counter N: a replay of it, or of anything older, must never be taken again.
+fn exhausted_case(idx: u64, rng: &mut Prng, col: &mut Collector) {
+    let front = FRONTS[(idx % 3) as usize];
+    let reg = regions::ALL[((idx / 3) % 9) as usize];
+    let start: Option<u32> = *rng.pick(&[None, Some(0), Some(7), Some(0xFFFF), Some(0x1_0000), Some(0x7FFF_0000)]);
+    let up0 = if rng.chance(2, 3) { 0xFFFF_FFFFu32 } else { 0xFFFF_FFFE };
+    let opts = DevOpts { rng_seed: Some(rng.next_u64()), ..Default::default() };
+    let r: Result<(Dev, Net), String> = abp_dev(front, reg, rng, &opts, |sj| {
+        sj["fcnt_up"] = json!(up0);
+        if let Some(d) = start {
+            sj["fcnt_down"] = json!(d);
+        }
+    });
+    let Ok((mut dev, net)) = r else {
+        col.event("harness_session_json_rejected");
+        return;
+    };
+    let mut last = start;
+    let place = rng.below(if front == Front::AsyncC { 3 } else { 2 });
+    for round in 0..3u32 {
+        let n = match last {
+            None => rng.below(50) as u32,
+            Some(l) => l + 1 + rng.below(5) as u32,
+        };
+        let cmds = if rng.bool() { rx_timing_setup_req(rng.range(1, 8) as u8) } else { vec![] };
+        let frame = net.downlink(&Down { fcnt: n, port: Some(9), payload: &[round as u8], f_opts: &cmds, confirmed: rng.chance(1, 3), ..Default::default() });
+        let mut script = Script::default();
+        match place {
+            0 => script.rx1.push(frame.clone()),
+            1 => script.rx2.push(frame.clone()),
+            _ => script.pre_rx1.push(frame.clone()),
+        }
+        let up_before = dev.fcnt_up();
+        let resp = dev.transact(Action::Send { data: &[round as u8], port: 2, confirmed: false }, &script);
+        if let Resp::Panic(m, l) = &resp {
+            col.violation(&format!("C05|panic|up-counter-exhausted|{}", short_loc(l)), "device panicked", json!({"msg": m, "loc": l}));
+            return;
+        }
+        let _ = dev.take_downlinks();
+        let got = dev.fcnt_down();
+        col.eval(&format!("exhausted|{}|{}|up={:x}|place={}|{}", reg.name(), front.name(), up_before.unwrap_or(0), place, resp.kind()));
+        if matches!(resp, Resp::Error(_)) || dev.tx_since(0).is_empty() {
+            // the stack refused to transmit at all: no receive opportunity, nothing to judge
+            col.event("exhausted_no_receive_opportunity");
+            return;
+        }
+        if up_before == Some(0xFFFF_FFFF) {
+            col.event("downlink_at_exhausted_up_counter");
+        }
+        if got != Some(Some(n)) {
+            col.violation(
+                &format!("C05|up-counter-exhausted|accepted-counter-not-remembered|{}|up={:x}", if place == 2 { "classC" } else { "classA" }, up_before.unwrap_or(0)),
+                "an authentic fresh downlink was received while the uplink counter is at its last values, but its counter was not remembered (a replay would be taken again)",
+                json!({"region": reg.name(), "front": front.name(), "fcnt_up_before": up_before, "downlink_counter": n, "fcnt_down_after": got, "fcnt_down_before": last, "response": format!("{:?}", resp), "round": round}),
+            );
+            return;
+        }
+        last = Some(n);
+        // the same frame again at the next opportunity: never taken twice
+        let mut script = Script::default();
+        match place {
+            0 => script.rx1.push(frame.clone()),
+            1 => script.rx2.push(frame.clone()),
+            _ => script.pre_rx1.push(frame.clone()),
+        }
+        let resp2 = dev.transact(Action::Send { data: &[0x55], port: 2, confirmed: false }, &script);
+        let delivered = dev.take_downlinks();
+        if matches!(resp2, Resp::DownlinkReceived(_)) || !delivered.is_empty() || dev.fcnt_down() != Some(Some(n)) {
+            col.violation("C05|up-counter-exhausted|replay-accepted", "a replayed downlink was accepted", json!({"region": reg.name(), "front": front.name(), "downlink_counter": n, "response": format!("{:?}", resp2)}));
+            return;
+        }
+        col.event("exhausted_replay_rejected");
     }
 }
